@@ -714,3 +714,17 @@ func scCounter255(ps ParamSet, depth, blocks, msgs int) *Scenario {
 	sc.Setup = append(sc.Setup, sc.actCall(0), ffwd)
 	return sc
 }
+
+// scManyProviders: one owner with 101 providers; the one that sorts last earns; whole-owner and per-provider withdrawals.
+var PM = sdk.AccAddress([]byte("many-provider-100"))
+
+func init() { addrNames["PM"] = PM }
+
+func scManyProviders(ps ParamSet, depth, blocks, msgs int) *Scenario {
+	sc := scManyBindings(ps, depth, blocks, msgs)
+	sc.Name = "S-FEES(101 providers of one owner)"
+	sc.Templates = []Template{{Name: "manyp", Consumer: "C1", Service: "a", Providers: []string{"PM"}, Cap: 5, Timeout: 2}}
+	sc.Alpha = lifeAlpha(AlphaOpts{RespKinds: []string{"ok"}, ShortSigners: true, Withdraw: []string{"O1:", "O1:PM"}})
+	sc.Setup = append(sc.Setup, sc.actCall(0), actE())
+	return sc
+}
